@@ -10,7 +10,7 @@ from selftest.mutate import run_variant
 from selftest.variants import V
 
 
-def run(props=None, verbose=False, tier="quick"):
+def run(props=None, verbose=False, tier="quick", quiet=False):
     vs = [v for v in V if not props or v["prop"] in props]
     with ThreadPoolExecutor(16) as ex:
         res = list(ex.map(lambda v: run_variant(v, tier), vs))
@@ -19,13 +19,16 @@ def run(props=None, verbose=False, tier="quick"):
         tag = "ok  " if r["ok"] else "FAIL"
         if not r["ok"]:
             bad += 1
+        if quiet and r["ok"]:
+            continue
         print("%s %s %-6s rc=%s  %s" % (tag, v["prop"], v["expect"], r["rc"], v["name"]))
         if (not r["ok"] or verbose):
             tail = "\n".join(l for l in r["out"].splitlines() if l.strip())
             print("     " + "\n     ".join(tail.splitlines()[-12:]))
             if r.get("why"):
                 print("     " + r["why"])
-    print("%d variants, %d unexpected" % (len(vs), bad))
+    if not quiet:
+        print("%d variants, %d unexpected" % (len(vs), bad))
     return bad, vs, res
 
 
